@@ -454,12 +454,13 @@ class Monitor:
         # with checkpoints open() re-pads [max checkpoint, +1000) with zeros when the repaired chain ended below it;
         # what was loaded is then no longer visible separately (the model comparison still covers every byte)
         padded = False
-        if cfg['checkpoints']:
-            a, b = (hz - CHUNK) * HS, hz * HS
-            padded = io_after[a:b] == bytes(CHUNK * HS) and file[a:b] != io_after[a:b]
-        if not padded and (not cfg['checkpoints'] or len(io_after) <= len(file)):
-            if io_after != file[:len(io_after)]:
-                self.fail('loaded chain is not a prefix of the stored file')
+        if cfg['checkpoints'] and io_after != file[:len(io_after)]:
+            # what was loaded = a prefix of the file (whole headers, possibly the bytes of a cut header which the
+            # filler then completes), followed by nothing but zero filler up to the end of the last checkpointed range
+            k = len(os.path.commonprefix([io_after, file]))
+            padded = len(io_after) == hz * HS and io_after[k:] == bytes(len(io_after) - k)
+        if not padded and io_after != file[:len(io_after)]:
+            self.fail('loaded chain is not a prefix of the stored file')
         # first damaged link the code is supposed to find
         fb = None
         if start == 0 and whole >= 1 and cfg['genesis'] is not None and dsha(file[:HS]).hex() != cfg['genesis']:
